@@ -13,7 +13,7 @@ from typing import Dict, Iterable, Iterator, List, Optional, Set, Tuple, Union
 PKG = "json_to_models"
 
 
-from .canon import canonicalise
+from .canon import canonicalise, property_names
 
 
 class AnalysisError(Exception):
@@ -148,7 +148,7 @@ class Module:
         self.modname = modname
         self.src = src
         self.tree = ast.parse(src, filename=relpath)
-        self.canon_changes = canonicalise(self.tree)     # rare spellings -> the spelling the rules know (sa/canon.py)
+        self.canon_changes = canonicalise(self.tree, prog.canon_properties)     # rare spellings -> the spelling the rules know (sa/canon.py)
         self.is_pkg = relpath.endswith("__init__.py")
         self.imports: Dict[str, Tuple[str, Optional[str]]] = {}  # local -> (module dotted, name or None)
         self.functions: Dict[str, FuncInfo] = {}
@@ -294,6 +294,17 @@ class Program:
         pkg_dir = os.path.join(self.root, PKG)
         if not os.path.isdir(pkg_dir):
             raise AnalysisError(f"package directory {pkg_dir} not found")
+        # names that are properties somewhere in the package (the normal-form pass never treats a read through one as a plain read)
+        trees = []
+        for dirpath, dirnames, filenames in os.walk(pkg_dir):
+            for fn in sorted(filenames):
+                if fn.endswith(".py"):
+                    try:
+                        with open(os.path.join(dirpath, fn), encoding="utf-8") as fh:
+                            trees.append(ast.parse(fh.read()))
+                    except (SyntaxError, UnicodeDecodeError):
+                        pass
+        self.canon_properties = property_names(trees)
         for dirpath, dirnames, filenames in os.walk(pkg_dir):
             dirnames[:] = sorted(d for d in dirnames if d != "__pycache__")
             for fn in sorted(filenames):
